@@ -231,6 +231,20 @@ pub fn run_sweep(ctx: &Ctx, rep: &mut Report) {
             }
             rep.corner("verbose_run");
         }
+        // the same command line in each of the four argument layouts (options first / between / last): same result
+        for layout in 0..4usize {
+            rep.evaluations += 1;
+            rep.nontrivial += 1;
+            cli::set_layout(layout);
+            let (code, out, tail) = run_cmd(cmd, &dir, &files, 1, ctx.seed);
+            cli::set_layout(cli::AUTO_LAYOUT);
+            if code != 0 {
+                rep.violate(format!("{cmd:?} n={n} layout {layout}"), format!("{cmd:?} with {n} samples: with the arguments in layout {layout} (0 as documented, 1 options first, 2 options behind the first positional, 3 options last) the command fails with exit {code}: {tail}"), json!({"cmd": format!("{cmd:?}"), "n": n, "layout": layout}));
+            } else if out != base_out {
+                rep.violate(format!("{cmd:?} n={n} layout {layout} output"), format!("{cmd:?} with {n} samples: argument layout {layout} gives a different result"), json!({"cmd": format!("{cmd:?}"), "n": n, "layout": layout}));
+            }
+            rep.corner("argument_layouts");
+        }
         rep.corner(&format!("{cmd:?}"));
         let _ = base_tail;
     }
